@@ -223,7 +223,10 @@ class _DocS(T.Sort):
         cached = SObj(real_module("builtins").object, {}, "cached-object")
         dec = ctx.choose([None, "decipher"], "decipher")
         dec = SymFn(lambda I, *a: None, "decipher") if dec else None
+        # re-entrancy guard (fix 620bdc5): the set of objects being read; `busy` = this object is among them
+        busy = ctx.choose([False, True], "being-read-already")
         return SObj(_pd.PDFDocument, {"xrefs": xrefs, "caching": caching, "_cached_objs": ({objid: (cached, 0)} if hit else {}),
+                                      "_objs_in_progress": ({objid, 99} if busy else {99}), "_busy": busy,
                                       "decipher": dec, "_plan": plan, "_hit": hit, "_cached": cached}, name)
     def sample(self, rng):
         return None
@@ -241,7 +244,8 @@ c.stubs = {
     "pdfminer.pdfdocument:PDFDocument.getobj": stub("pdfminer.pdfdocument:PDFDocument.getobj", ["self", "objid"], T.Obj("pdfminer.pdftypes:PDFStream")),
     "pdfminer.pdftypes:decipher_all": stub("pdfminer.pdftypes:decipher_all", ["decipher", "objid", "genno", "x"], ObjS()),
 }
-c.may_raise(PDFObjectNotFound, lambda self, trace: not self._hit and _getobj_trace_ok(self, trace, None, raised=True))
+c.may_raise(PDFObjectNotFound, lambda self, trace: not self._hit and ((self._busy and len(trace) == 0) or (not self._busy and _getobj_trace_ok(self, trace, None, raised=True))))
+c.ens("the-set-of-objects-being-read-is-restored", lambda self: self._objs_in_progress == ({7, 99} if self._busy else {99}))
 
 
 def _getobj_trace_ok(self, trace, result, raised=False):
